@@ -11,7 +11,7 @@ ASSGN = {
 ASSGN2 = dict(ASSGN, **{"<var>": ["a", "b"], "<digit>": ["0", "1"]})
 XMLISH = {
     "<start>": ["<tree>"],
-    "<tree>": ["[<id>]<inner>[/<id>]", "[<id>/]"],
+    "<tree>": ["(<id>)<inner>(/<id>)", "(<id>/)"],
     "<inner>": ["<tree>", "<tree><inner>", "<text>"],
     "<id>": ["a", "b"],
     "<text>": ["x", "y"],
@@ -74,3 +74,87 @@ GRAMMARS = {
 def wide(n=40):
     """one alternative with n children (datrie alphabet boundary is 28)"""
     return {"<start>": ["<row>"], "<row>": ["<d>" * n], "<d>": ["0", "1"]}
+
+
+# ---------------------------------------------------------------- hand-written formula catalogue
+from harness.formulas import (FA, EX, FAI, EXI, AND, OR, NOT, TRUE, FALSE, PRED, COUNT, SMT, M, MCH, MNT, MOPT,
+                              set_num_bounds)
+from harness.smt import A, I, S, V
+
+
+def _eq(a, b):
+    return SMT(A("=", V(a), V(b) if isinstance(b, str) and not b.startswith("=") else S(b[1:])))
+
+
+def lit(a, s):
+    return SMT(A("=", V(a), S(s)))
+
+
+def hand_formulas(name):
+    """(family, ast) pairs with match expressions, deep nesting and corner cases, per grammar"""
+    F = []
+    add = lambda fam, f: F.append((fam, set_num_bounds(f)))
+    if name in ("ASSGN", "ASSGN2"):
+        add("doc-defuse", FA("<assgn>", "a", EX("<assgn>", "d", AND(PRED("before", "d", "a"),
+            FA("<var>", "r", EX("<var>", "l", SMT(A("=", V("l"), V("r"))), inn="d"), inn="a")))))
+        add("mexpr-unique", FA("<assgn>", "x", NOT(SMT(A("=", V("l"), V("r")))), mexpr=M(MNT("<var>", "l"), MCH(" := "), MNT("<rhs>", "r"))))
+        add("mexpr-unique", FA("<assgn>", "x", lit("r", "a"), mexpr=M(MNT("<var>"), MCH(" := "), MNT("<var>", "r"))))
+        add("mexpr-unique", EX("<assgn>", "x", lit("r", "1"), mexpr=M(MNT("<var>"), MCH(" := "), MNT("<digit>", "r"))))
+        add("mexpr-unique", FA("<stmt>", "s", NOT(SMT(A("=", V("a1"), V("a2")))), mexpr=M(MNT("<assgn>", "a1"), MCH(" ; "), MNT("<assgn>", "a2"))))
+        add("mexpr-optional", FA("<stmt>", "s", EX("<var>", "v", lit("v", "a"), inn="a1"), mexpr=M(MNT("<assgn>", "a1"), MOPT(MCH(" ; "), MNT("<stmt>")))))
+        add("mexpr-optional", EX("<stmt>", "s", AND(lit("l", "b"), PRED("inside", "l", "s")), mexpr=M(MNT("<var>", "l"), MCH(" := "), MNT("<rhs>"), MOPT(MCH(" ; "), MNT("<stmt>")))))
+        add("mexpr-unique", EX("<stmt>", "s", AND(lit("l", "a"), FA("<var>", "w", lit("w", "a"), inn="t")), mexpr=M(MNT("<var>", "l"), MCH(" := "), MNT("<rhs>"), MCH(" ; "), MNT("<stmt>", "t"))))
+        add("mexpr-literal", EX("<assgn>", "x", TRUE, mexpr=M(MCH("a := "), MNT("<rhs>"))))
+        add("mexpr-literal", FA("<assgn>", "x", EX("<digit>", "d", TRUE, inn="x"), mexpr=M(MCH("b := "), MNT("<rhs>", "r"))))
+        add("nested-in", FA("<stmt>", "s", FA("<assgn>", "a", EX("<var>", "v", PRED("inside", "v", "s"), inn="a"), inn="s")))
+        add("same-pos", FA("<assgn>", "a", FA("<assgn>", "b", OR(PRED("same_position", "a", "b"), NOT(SMT(A("=", V("a"), V("b"))))))))
+        add("count", COUNT("start", "<assgn>", 2))
+        add("count", FA("<stmt>", "s", OR(COUNT("s", "<var>", 1), COUNT("s", "<var>", 2), NOT(SMT(A("<", A("str.len", V("s")), I(7)))))))
+        add("numeric", EXI("n", AND(COUNT("start", "<var>", "n"), COUNT("start", "<assgn>", "n"))))
+        add("numeric", FAI("n", OR(NOT(COUNT("start", "<digit>", "n")), SMT(A("<=", A("str.to.int", V("n")), I(1))))))
+        add("numeric-all-nonneg", FAI("n", SMT(A(">=", A("str.to.int", V("n")), I(0)))))
+        add("start-quantified", FA("<start>", "s", EX("<stmt>", "t", SMT(A("=", A("str.len", V("t")), I(6))), inn="s")))
+        add("vacuous-body", FA("<digit>", "d", FALSE))
+        add("vacuous-body", EX("<digit>", "d", TRUE))
+        add("vacuous-body", FA("<digit>", "d", SMT(A("=", I(1), I(2)))))
+        add("vacuous-body", FA("<digit>", "d", EX("<var>", "v", lit("v", "b"))))
+    if name == "XMLISH":
+        add("mexpr-unique", FA("<tree>", "t", SMT(A("=", V("o"), V("c"))), mexpr=M(MCH("("), MNT("<id>", "o"), MCH(")"), MNT("<inner>"), MCH("(/"), MNT("<id>", "c"), MCH(")"))))
+        add("mexpr-unique", EX("<tree>", "t", lit("o", "a"), mexpr=M(MCH("("), MNT("<id>", "o"), MCH("/)"))))
+        add("mexpr-nested", FA("<tree>", "t", NOT(SMT(A("=", V("o"), V("i")))), mexpr=M(MCH("("), MNT("<id>", "o"), MCH(")("), MNT("<id>", "i"), MCH("/)(/"), MNT("<id>"), MCH(")"))))
+        add("level", FA("<id>", "x", FA("<id>", "y", OR(NOT(PRED("level", ("s", "EQ"), ("s", "<tree>"), "x", "y")), PRED("same_position", "x", "y"), SMT(A("=", V("x"), V("y")))))))
+        add("level", EX("<text>", "x", EX("<id>", "y", PRED("level", ("s", "GE"), ("s", "<inner>"), "y", "x"))))
+        add("nth", FA("<tree>", "t", FA("<id>", "i", OR(NOT(PRED("nth", 1, "i", "t")), PRED("direct_child", "i", "t")), inn="t")))
+        add("count", FA("<tree>", "t", OR(COUNT("t", "<id>", 1), COUNT("t", "<id>", 2), COUNT("t", "<tree>", 2))))
+        add("consecutive", EX("<id>", "x", EX("<text>", "y", TRUE)))
+    if name == "NULLABLE":
+        add("epsilon", FA("<A>", "x", OR(SMT(A("=", A("str.len", V("x")), I(0))), EX("<A>", "y", NOT(PRED("same_position", "x", "y")), inn="x"))))
+        add("epsilon", EX("<B>", "b", SMT(A("=", V("b"), S("")))))
+        add("epsilon", FA("<A>", "x", EX("<A>", "y", AND(PRED("inside", "y", "x"), SMT(A("=", V("y"), S("")))))))
+        add("mexpr-nullable", EX("<A>", "x", SMT(A("=", V("r"), S(""))), mexpr=M(MCH("a"), MNT("<A>", "r"))))
+        add("mexpr-nullable", FA("<start>", "s", SMT(A("=", V("b"), S("b"))), mexpr=M(MNT("<A>"), MNT("<B>", "b"))))
+        add("count", COUNT("start", "<A>", 2))
+    if name == "AMBIG":
+        add("plain", FA("<A>", "x", EX("<A>", "y", PRED("inside", "x", "y"))))
+        add("mexpr-ambiguous", EX("<A>", "x", PRED("before", "l", "r"), mexpr=M(MNT("<A>", "l"), MNT("<A>", "r"))))
+        add("mexpr-ambiguous", FA("<A>", "x", SMT(A("=", V("l"), S("a"))), mexpr=M(MNT("<A>", "l"), MNT("<A>"), MNT("<A>"))))
+        add("count", EXI("n", AND(COUNT("start", "<A>", "n"), SMT(A(">", A("str.to.int", V("n")), I(2))))))
+    if name == "NUM":
+        add("to-int", FA("<digits>", "d", SMT(A(">=", A("str.to.int", V("d")), I(0)))))
+        add("to-int", EX("<digits>", "d", SMT(A("=", A("str.to.int", V("d")), I(10)))))
+        add("to-int", FA("<digit>", "d", EX("<digit>", "e", SMT(A("<=", A("str.to.int", V("d")), A("str.to.int", V("e")))))))
+        add("to-int", EX("<digits>", "d", SMT(A("=", A("+", A("str.to.int", V("d")), I(1)), A("*", I(2), I(2))))))
+        add("mexpr-optional", EX("<int>", "x", AND(SMT(A("=", V("s"), S("-"))), SMT(A(">", A("str.to.int", V("d")), I(1)))), mexpr=M(MNT("<sign>", "s"), MNT("<digits>", "d"))))
+        add("numeric", EXI("n", EX("<digits>", "d", SMT(A("=", V("d"), V("n"))))))
+        add("numeric", FAI("n", FA("<digits>", "d", OR(NOT(SMT(A("=", A("str.to.int", V("d")), A("str.to.int", V("n"))))), SMT(A("<", A("str.to.int", V("n")), I(20)))))))
+    if name == "WIDE":
+        add("wide", EX("<d>", "x", lit("x", "1")))
+        add("wide", FA("<d>", "x", lit("x", "0")))
+        add("wide", COUNT("start", "<d>", 40))
+        add("wide", EX("<d>", "x", EX("<d>", "y", AND(PRED("before", "x", "y"), lit("x", "1"), lit("y", "1")))))
+        add("wide", EX("<row>", "r", EX("<d>", "x", AND(PRED("nth", 30, "x", "r"), lit("x", "1")), inn="r")))
+    if name == "CSVISH":
+        add("count", FA("<row>", "r", EX("<row>", "q", OR(PRED("same_position", "r", "q"), PRED("inside", "r", "q"), PRED("inside", "q", "r"), TRUE))))
+        add("numeric", EXI("n", FA("<row>", "r", OR(COUNT("r", "<field>", "n"), EX("<row>", "q", AND(PRED("inside", "r", "q"), NOT(PRED("same_position", "r", "q"))))))))
+        add("count", COUNT("start", "<field>", 2))
+    return F
